@@ -176,6 +176,9 @@ mod capi;
 mod syscalls;
 mod utils;
 
+#[cfg(feature = "_verif_hooks")]
+pub mod verif;
+
 // Library tests.
 #[cfg(test)]
 mod tests;
